@@ -72,6 +72,7 @@ def check_store(c, clause, m, ts, v, ref):
     'flag_implies_above_low': (not state.cacheTooFull) or inf or c.size >= settings.CACHE_SIZE_LOW_WATERMARK,
     'no_empty_entries': all(len(x) > 0 for x in after.values()),
   }
+  res['I_nonempty'] = res['no_empty_entries']
   key = clause.split('/')[-1].split('[')[0]
   if key in res and not res[key]:
     return "%s violated by store(%r,(%r,%r)): before=%r size0=%r after=%r size=%r overflow+=%d" % (
@@ -120,7 +121,7 @@ def search(clause, maxes, flows, strategies, depth):
             instrumentation.stats.clear()
             cls = STRATS[strat]
             c = C._MetricCache(cls)
-            val = 0
+            val = -1       # the first stored value is 0.0 (falsy): a presence test must not be a truth test
             hist = []
             bad = None
             for op in seq:
